@@ -44,18 +44,23 @@ def _is_registered_param(obj, name):
     return isinstance(obj, torch.nn.Module) and name in obj._parameters
 
 def _setattr_keep_slot(obj, name, val):
-    # A plain tensor cannot be assigned to the name of a registered parameter.
-    # Put it into the parameter's slot directly, the way torch's own temporary
-    # substitution (torch.func.functional_call) does: the slot keeps its position,
-    # so that assigning a Parameter to the name later puts it back where it was,
-    # and whoever substituted first (xitorch or torch) finds its tensors in the
-    # same place when it restores.
-    if _is_registered_param(obj, name) and isinstance(val, torch.Tensor) and \
-            not isinstance(val, torch.nn.Parameter):
-        obj.__dict__.pop(name, None)
-        obj._parameters[name] = val
-    else:
-        setattr(obj, name, val)
+    # A tensor of a torch.nn.Module is replaced in the place where the name lives
+    # now (parameter slot, buffer or plain attribute), the way torch's own
+    # temporary substitution (torch.func.functional_call) does. A plain tensor
+    # cannot be assigned to the name of a registered parameter, and assigning a
+    # Parameter to the name of a buffer or of a plain attribute would register a
+    # new parameter: written into its place, the name keeps its kind and its
+    # position, so whoever substituted first (xitorch or torch) finds its tensors
+    # in the same place when it restores, also when the caller has turned a
+    # parameter into a constant since the substituted tensors were recorded.
+    if isinstance(obj, torch.nn.Module) and isinstance(val, torch.Tensor):
+        for place in (obj._parameters, obj._buffers, obj.__dict__):
+            if name in place:
+                if place is obj._parameters:
+                    obj.__dict__.pop(name, None)
+                place[name] = val
+                return
+    setattr(obj, name, val)
 
 def _delattr_keep_slot(obj, name):
     # deleting a registered parameter keeps its slot, see _setattr_keep_slot
